@@ -21,6 +21,8 @@ func main() {
 		cmdRun(os.Args[2:])
 	case "check":
 		os.Exit(cmdCheck(os.Args[2:]))
+	case "manifest":
+		os.Exit(cmdManifest(os.Args[2:]))
 	case "selftest":
 		os.Exit(cmdSelftest(os.Args[2:]))
 	default:
